@@ -83,7 +83,7 @@ def gen_case(rng, max_ops, mirror=False, ncomp=5):
         ws = rng.choice(wss)
         kind = rng.weighted([("ins", 22), ("ext", 12), ("rem", 18), ("ead", 8), ("erm", 8), ("wrt", 6),
                              ("clr", 2), ("shr", 3), ("rsv", 3), ("rset", 2), ("cln", 3), ("clf", 3),
-                             ("srd", 4), ("eq", 3), ("drop", 1), ("new", 1), ("qry", 9), ("eqry", 4), ("nqry", 5), ("qwr", 3), ("mde", 6), ("pqry", 7), ("pqwr", 3)])
+                             ("srd", 4), ("eq", 3), ("drop", 1), ("new", 1), ("qry", 9), ("eqry", 4), ("nqry", 5), ("qwr", 3), ("mde", 6), ("pqry", 7), ("pqwr", 3), ("erm2", 4)])
         if kind == "ins":
             mask = rng.choice(palette) if rng.chance(5, 6) else anymask()
             desc = rng.below(2)
@@ -122,6 +122,8 @@ def gen_case(rng, max_ops, mirror=False, ncomp=5):
             lines.append("erm %d %s %d" % (ws, target(ws), rng.below(NCOMP)))
         elif kind == "wrt":
             lines.append("wrt %d %s %d %d" % (ws, target(ws), rng.below(NCOMP), fresh()))
+        elif kind == "erm2":
+            lines.append("erm2 %d %s %d %d %d" % (ws, target(ws), rng.below(NCOMP), rng.below(NCOMP), fresh()))
         elif kind == "clr":
             lines.append("clr %d" % ws)
             freec[ws] += len(live[ws])
@@ -294,6 +296,8 @@ def gen_fault_case(rng, ncomp=5):
     comp = rng.choice(present) if rng.chance(3, 4) else rng.below(ncomp)
     cands = [("drop", "rem %d %s" % (ws, tgt)), ("drop", "clr %d" % ws), ("drop", "ead %d %s %d %d" % (ws, tgt, comp, fresh())),
              ("drop", "erm %d %s %d" % (ws, tgt, comp)), ("drop", "wrt %d %s %d %d" % (ws, tgt, comp, fresh())),
+             ("drop", "erm2 %d %s %d %d %d" % (ws, tgt, comp, rng.choice(present), fresh())),
+             ("drop", "erm2 %d %s %d %d %d" % (ws, tgt, comp, rng.below(ncomp), fresh())),
              ("drop", "rset %d %d %d 0" % (ws, rng.below(4), fresh())), ("drop", "drop %d" % ws),
              ("clone", "cln %d 2" % ws), ("eq", "eq %d %d" % (ws, ws)), ("dbg", "dbg %d" % ws),
              ("ser", "srd %d %d 2" % (rng.below(2), ws)), ("de", "srd %d %d 2" % (rng.below(2), ws)),
@@ -441,7 +445,11 @@ def run_cases(cases, workdir, shards=16, tag="wh"):
                 f.write("end\n")
         impl = os.path.join(workdir, "%s.%d.impl" % (tag, s))
         mod = os.path.join(workdir, "%s.%d.model" % (tag, s))
-        cmd = "VERIF_POOL=%d timeout 1200 %s %s > %s && timeout 1200 %s %s > %s" % ([1, 2, 4, 16][s % 4], wh, ops, impl, model, impl, mod)
+        for stale in (impl, mod):
+            if os.path.exists(stale):
+                os.remove(stale)
+        # the model runs on whatever trace the harness produced, also when the harness died half-way
+        cmd = "VERIF_POOL=%d timeout 1200 %s %s > %s; rc=$?; timeout 1200 %s %s > %s; exit $rc" % ([1, 2, 4, 16][s % 4], wh, ops, impl, model, impl, mod)
         procs.append((subprocess.Popen(cmd, shell=True, stderr=subprocess.PIPE, text=True), impl, mod, a, len(chunk), ops))
     out = []
     for p, impl, mod, first, n, ops in procs:
@@ -940,6 +948,16 @@ class RefWorlds:
             ws = int(t[1])
             if ws in self.res:
                 self.res[ws][int(t[2])] = norm_val(100 + int(t[2]), int(t[3]))
+        elif k == "erm2":
+            ws = int(t[1])
+            if ws in self.maps:
+                e = eid(t[2])
+                present = e in self.maps[ws]
+                if present:
+                    self.maps[ws][e].pop(int(t[3]), None)
+                    self.maps[ws][e][int(t[4])] = norm_val(int(t[4]), int(t[5]))
+                if not ret.startswith("bool %s" % str(present).lower()):
+                    fails.append(("C02", "erm2 on %s: expected %s got %r" % (e, present, ret)))
         elif k in ("qry", "pqry"):
             prop = "C03" if k == "qry" else "C09"
             ws = int(t[1])
@@ -1135,7 +1153,7 @@ def oracle_case(impl_case):
                     f = len(pw["free"])
                     if f > 0:
                         corners.add("batch<free" if len(ids) < f else "batch=free" if len(ids) == f else "batch>free")
-        if k in ("ead", "erm") and st["ret"] == "bool true":
+        if k in ("ead", "erm", "erm2") and (st["ret"] or "").startswith("bool true"):
             corners.add("shape-change")
         if k == "shr":
             corners.add("shrink")
@@ -1146,6 +1164,12 @@ def oracle_case(impl_case):
             comps_ = ref.maps[int(t[1])].get(eid(t[2]))
             if comps_ is not None and int(t[3]) in comps_:
                 overwritten = (int(t[3]), comps_[int(t[3])])
+        if k == "erm2" and int(t[1]) in ref.maps:
+            comps_ = ref.maps[int(t[1])].get(eid(t[2]))
+            if comps_ is not None and int(t[4]) in comps_:
+                # c2 != c: the present value of c2 is overwritten; c2 == c: the value of c is dropped by the
+                # removal and a new one (possibly with the same payload) is added
+                overwritten = (int(t[4]), comps_[int(t[4])])
         qwr_drops = None
         if k in ("qwr", "pqwr") and int(t[1]) in ref.maps:
             qvs, qf = parse_views_text(t[4]), parse_filter_text(t[5])
